@@ -172,7 +172,7 @@ def execute(sim, scn):
 
     def dtap(entry, copy, data):
         if entry["dst"] == me:
-            delivered.append((loop.now, entry, data))
+            delivered.append((loop.now, entry, data, len(sim.events)))
 
     sim.net.deliver_taps.append(dtap)
     icmps = []
@@ -296,9 +296,11 @@ def execute(sim, scn):
                     sim.violation("C02/token-reused-while-outstanding", {"remote": fmt(remote), "token": a[2].hex(),
                                                                         "tags": [a[3], b[3]]})
     # ---- walk over everything delivered to the client, in processing order
+    wire = sim.net.wire
     expect_rst = {}  # (src, mid) -> count
     expect_ack = {}
-    for (t, e, data) in delivered:
+    done_pos = {ev[3]: pos for pos, ev in enumerate(sim.events) if ev[1] == "app" and ev[2] == "done"}
+    for (t, e, data, dpos) in delivered:
         try:
             m = rc.decode(data)
         except rc.FormatError:
@@ -318,8 +320,27 @@ def execute(sim, scn):
             if rec["done"] and rec["outcome"] != "response" and rec["t_done"] < t - TOL:
                 continue  # retired by an earlier failure
             if rec["done"] and rec["outcome"] != "response" and abs(rec["t_done"] - t) <= TOL:
-                match = "ambiguous"
-                continue
+                # same instant: the order in the event log decides -- was the failure's cause (send error, ICMP error,
+                # Reset) processed before this datagram?
+                cause_before = False
+                for pos in range(dpos - 1, -1, -1):
+                    ev = sim.events[pos]
+                    if ev[0] < t - TOL:
+                        break
+                    if ev[1] == "net" and ev[2] == "senderr" and ev[3] == fmt(me) and ev[4] == fmt(src):
+                        cause_before = True
+                    if ev[1] == "icmp-inject" and ev[2] == fmt(me) and ev[3] == fmt(src):
+                        cause_before = True
+                    if ev[1] == "icmp" and ev[2].startswith(fmt(me) + ">" + fmt(src)):
+                        cause_before = True
+                    if ev[1] == "rx" and ev[2] == fmt(src) + ">" + fmt(me):
+                        ee = next((w for w in wire if w["link"] == ev[2] and w["idx"] == ev[3]), None)
+                        if ee is not None and ee["msg"] is not None and ee["msg"]["type"] == rc.RST:
+                            cause_before = True
+                if cause_before:
+                    continue  # failed (and retired) before this datagram was processed
+                match = tag
+                break
             match = tag
             break
         if match == "ambiguous":
@@ -410,7 +431,7 @@ def execute(sim, scn):
                 # RST for one of this request's transmissions
                 mids = {e["msg"]["mid"] for e in sent if e["dst"] == R and e["msg"]["token"] == q["token"]
                         and 1 <= e["msg"]["code"] < 32}
-                for (t, e, data) in delivered:
+                for (t, e, data, dpos) in delivered:
                     if e["src"] == R and abs(t - td) <= TOL and e["msg"] is not None and e["msg"]["type"] == rc.RST \
                             and e["msg"]["mid"] in mids:
                         causes.append("rst")
@@ -460,7 +481,7 @@ def execute(sim, scn):
                 ind += ["senderr" for (t, d) in senderrs if d == fmt(R) and t > t0 + TOL]
                 mids = {e["msg"]["mid"] for e in sent if e["dst"] == R and e["msg"]["token"] == q["token"]
                         and 1 <= e["msg"]["code"] < 32}
-                for (t, e, data) in delivered:
+                for (t, e, data, dpos) in delivered:
                     if e["src"] == R and e["msg"] is not None and e["msg"]["type"] == rc.RST and e["msg"]["mid"] in mids \
                             and not e["forged"]:
                         ind.append("rst")
